@@ -121,9 +121,25 @@ def r2(ctx):
     if len(hs) != 2:
         raise AnchorError(f"Display for Board: expected 2 nested loops, found {len(hs)}")
     inner, outer = hs
-    missing_local = [i for i, l in enumerate(body["locals"]) if l.get("n") == "missing"]
+    # the empty-square run counter, by role: the named u32 local that is both reset to 0 and incremented by 1 (whatever it is called)
+    missing_local = []
+    for i, l in enumerate(body["locals"]):
+        if not l.get("n") or l["ty"] != "u32":
+            continue
+        zero = inc = False
+        for kind, b_, d_ in k2.local_defs(body, i):
+            if kind != "stmt":
+                continue
+            dd = k2.describe_def(P, body, kind, d_)
+            if dd == ("int", 0, "u32"):
+                zero = True
+            x_ = dd[1] if dd[0] == "proj" else dd
+            if x_[0] == "bin" and x_[1].startswith("Add") and ("int", 1, "u32") in x_[2:]:
+                inc = True
+        if zero and inc:
+            missing_local.append(i)
     if len(missing_local) != 1:
-        raise AnchorError("Display for Board: no unique local `missing`")
+        raise AnchorError(f"Display for Board: no unique run counter (a u32 local reset to 0 and incremented by 1): {missing_local}")
     ml = missing_local[0]
     n_in = n_out = 0
     for lf in loops:
